@@ -247,9 +247,10 @@ fn snapshot_indicator(d: &reg::IDesc, cfg: &dyn reg::DC, cs: &[Candle], seed: u6
 									match guard(|| (res_bits(&orig.next(c)), res_bits(&rs.next(c)))) {
 										Ok((a, b)) => {
 											if a != b {
-												let z = |v: &Vec<u64>| v.iter().map(|x| if *x == 0x8000_0000_0000_0000 || *x == 0x8000_0000 { 0 } else { *x }).collect::<Vec<u64>>();
+												// -0.0 -> +0.0 and Sell(0) -> Buy(0) (what a signal computed from the sign of such a zero turns into)
+												let z = |v: &Vec<u64>| v.iter().map(|x| if *x == 0x8000_0000_0000_0000 || *x == 0x8000_0000 { 0 } else if *x == 0x200 { 0x100 } else { *x }).collect::<Vec<u64>>();
 												let sig = if z(&a) == z(&b) && cfgv.to_string().contains("smm") { "C13|SMM|restored-diverges|sign-of-zero-only".to_string() } else { format!("C13|{}|restored-diverges", d.name) };
-												r.violate(&sig, "a restored indicator instance does not continue bit-identically", || json!({"case": case(k, "continuation"), "steps_after_snapshot": j}));
+												r.violate(&sig, "a restored indicator instance does not continue bit-identically", || json!({"case": case(k, "continuation"), "steps_after_snapshot": j, "original_bits": a.iter().map(|x| format!("{x:#x}")).collect::<Vec<_>>(), "restored_bits": b.iter().map(|x| format!("{x:#x}")).collect::<Vec<_>>()}));
 												break;
 											}
 										}
